@@ -144,3 +144,31 @@ Example ex_pair_hyps :
   sep <> [] /\ ~ In BS sep /\ strip (x1 ++ sep ++ x2) = x1 ++ sep ++ x2
   /\ split_once sep (x1 ++ sep ++ x2) = Some (x1, x2).
 Proof. cbn. repeat split; try discriminate; try reflexivity. unfold BS. intros [H|[]]. discriminate. Qed.
+
+(* ------------------------------------------------------------------ List of Pair of string-like halves *)
+
+From Config Require Import Proofs_List.
+
+(* per item: a pair in the range of the pair type, unambiguous, whose text is a plain list item *)
+Definition pair_item_ok (so : soracles) (o : oracles) (opt optpair : bool) (sep : str) (ta tb : ty) (v : val) : Prop :=
+  exists a b r, v = VPair a b
+    /\ deserialize o (TPair opt optpair sep ta tb) r = Ok v
+    /\ strip (text_of a ++ sep ++ text_of b) = text_of a ++ sep ++ text_of b
+    /\ split_once sep (text_of a ++ sep ++ text_of b) = Some (text_of a, text_of b)
+    /\ (optpair = true -> encode (text_of a) = encode (text_of b) ->
+        text_of a <> [] /\ strip (text_of a) = text_of a /\ split_once sep (text_of a) = None)
+    /\ (forall s, serialize so o false (TPair opt optpair sep ta tb) v = SStr s -> plain_item s).
+
+Lemma list_of_pairs_roundtrip so o (OK : str_oracles_ok so o) lopt uq opt optpair sep ta tb raw v :
+  stringish ta = true -> stringish tb = true -> sep <> [] -> ~ In BS sep ->
+  deserialize o (TList lopt uq (TPair opt optpair sep ta tb)) raw = Ok v ->
+  (forall vs, v = VTuple vs \/ v = VSet vs -> Forall (pair_item_ok so o opt optpair sep ta tb) vs) ->
+  exists s, serialize so o false (TList lopt uq (TPair opt optpair sep ta tb)) v = SStr s
+            /\ deserialize o (TList lopt uq (TPair opt optpair sep ta tb)) s = Ok v.
+Proof.
+  intros SA SB NE NB D H. apply (list_roundtrip_gen so o lopt uq _ raw v D).
+  intros vs HV. specialize (H vs HV). unfold items_rt. eapply Forall_impl; [|exact H].
+  intros x (a & b & r & -> & DR & ST & SP & SH & PL).
+  destruct (pair_of_strings_roundtrip so o OK opt optpair sep ta tb r a b SA SB DR NE NB ST SP SH) as (s & S & D').
+  exists s. split; [exact S|]. split; [exact D'|]. apply PL. exact S.
+Qed.
